@@ -15,8 +15,12 @@ fn dis_binary() -> PathBuf {
     verif_root().join("target/dis/release/rspirv-dis")
 }
 
+fn tmp_dir() -> PathBuf {
+    verif_root().join("target/c20-tmp").join(format!("{}", std::process::id()))
+}
+
 fn tmp_file() -> PathBuf {
-    let dir = verif_root().join("target/c20-tmp");
+    let dir = tmp_dir();
     let _ = std::fs::create_dir_all(&dir);
     let tid = format!("{:?}", std::thread::current().id());
     let tid: String = tid.chars().filter(|c| c.is_ascii_digit()).collect();
@@ -381,6 +385,103 @@ fn sub_error_kinds(input: &[u8], st: &mut Stats) -> R {
     Ok(())
 }
 
+pub fn cleanup() {
+    let _ = std::fs::remove_dir_all(tmp_dir());
+}
+
+/// generated modules under `layout::mutate2`: modules stored back to back, special words where an
+/// instruction starts, a text split inside a character over two instructions, one id renamed to a
+/// value around 2^16 / 2^17, swapped and repeated instructions
+pub fn sub_structural(input: &[u8], st: &mut Stats) -> R {
+    let mut cs = Cs::new(input);
+    let mode = match cs.below(3) {
+        0 => ModMode::Ordered,
+        1 => ModMode::Interleaved,
+        _ => ModMode::Wild,
+    };
+    let m = gen_module(&mut cs, mode, 30);
+    let (bytes, kinds) = crate::layout::mutate2(&mut cs, &m);
+    for k in &kinds {
+        st.count(&format!("structural_{}", k));
+    }
+    check_file(&bytes, st, &|| format!("{}structural edits {:?}", m.render(), kinds))
+}
+
+/// `text-files`: what people feed a disassembler by mistake or out of habit - a module written out as
+/// text: one number per word in the usual hexadecimal / decimal spellings (0x%08x, %#x - which
+/// prints a zero word as a bare 0 -, %x, %08X, %u) separated by commas, blanks or newlines, with or
+/// without braces, a C array, the module's own disassembly, assembly-like text, JSON, text with a
+/// byte order mark, UTF-16 text, base64-looking text. "Whatever the file contains."
+pub fn sub_text_files(input: &[u8], st: &mut Stats) -> R {
+    let mut cs = Cs::new(input);
+    let m = gen_module(&mut cs, ModMode::Ordered, 12);
+    let words = m.words();
+    let style = cs.below(12);
+    let sep = [", ", ",", " ", "\n", ",\n", "\t", " , ", "\r\n"][cs.below(8)];
+    let num = |w: u32, f: usize| -> String {
+        match f {
+            0 => format!("0x{:08x}", w),
+            1 => format!("{:#x}", w).replace("0x0", "0x0"),
+            2 => {
+                // C's %#x: zero prints as a bare 0
+                if w == 0 { "0".to_string() } else { format!("{:#x}", w) }
+            }
+            3 => format!("{:x}", w),
+            4 => format!("0X{:08X}", w),
+            5 => format!("{}", w),
+            _ => format!("0x{:x}", w),
+        }
+    };
+    let f = cs.below(7);
+    let list: Vec<String> = words.iter().map(|w| num(*w, f)).collect();
+    let text: String = match style {
+        0 | 1 | 2 => list.join(sep),
+        3 => format!("{{{}}}", list.join(sep)),
+        4 => format!("const uint32_t code[] = {{\n  {}\n}};\n", list.join(sep)),
+        5 => format!("[{}]", list.join(sep)),
+        6 => no_panic("disassemble", || rspirv::dr::load_words(&words).map(|m| m.disassemble()).unwrap_or_else(|e| format!("{}", e)))?,
+        7 => format!("; SPIR-V\n; Version: 1.{}\n; Bound: {}\n{}", cs.below(7), words.get(3).copied().unwrap_or(0), m.render()),
+        8 => format!("{}{}", '\u{feff}', list.join(sep)),
+        9 => format!("{} {}", list.first().cloned().unwrap_or_default(), cs.text(20)),
+        10 => format!("{{\"magic\": \"{}\", \"words\": [{}]}}", list.first().cloned().unwrap_or_default(), list.join(", ")),
+        _ => {
+            const B64: &[u8] = b"ABCDEFGHIJKLMNOPQRSTUVWXYZabcdefghijklmnopqrstuvwxyz0123456789+/";
+            let mut t = String::from("AwIjBw");
+            for w in &words {
+                for k in 0..5 {
+                    t.push(B64[((w >> (6 * k)) & 63) as usize] as char);
+                }
+            }
+            t.push_str("==");
+            t
+        }
+    };
+    let mut bytes: Vec<u8> = match cs.below(8) {
+        0 => text.encode_utf16().flat_map(|u| u.to_le_bytes()).collect(),
+        1 => {
+            let mut b = vec![0xff, 0xfe];
+            b.extend(text.encode_utf16().flat_map(|u| u.to_le_bytes()));
+            b
+        }
+        _ => text.clone().into_bytes(),
+    };
+    match cs.below(8) {
+        0 => {
+            let at = cs.below(bytes.len() + 1);
+            bytes.truncate(at);
+        }
+        1 => bytes.push(b'\n'),
+        2 => {
+            let mut b = vec![b' ', b'\n'];
+            b.extend(&bytes);
+            bytes = b;
+        }
+        _ => {}
+    }
+    st.count(&format!("text_style_{}", style));
+    check_file(&bytes, st, &|| format!("text file (style {}, number format {}, separator {:?}): {:?}", style, f, sep, { let mut t = text.clone(); crate::engine::clip(&mut t, 400); t }))
+}
+
 pub const SUBS: &[Sub] = &[
     Sub { name: "error-kinds", f: sub_error_kinds },
     Sub { name: "fixed-files", f: sub_fixed },
@@ -388,17 +489,21 @@ pub const SUBS: &[Sub] = &[
     Sub { name: "output-shapes", f: sub_output_shapes },
     Sub { name: "chaos-files", f: sub_chaos },
     Sub { name: "ext-inst-numbers", f: sub_ext_numbers },
+    Sub { name: "structural-variations", f: sub_structural },
+    Sub { name: "text-files", f: sub_text_files },
 ];
 
 pub fn run(ctx: &Ctx) {
     run_regress(ctx, SUBS);
     drive_enum(ctx, &SUBS[0], 30 + ctx.n(150, 10_000));
     drive_enum(ctx, &SUBS[1], 8);
-    drive_random(ctx, &SUBS[2], ctx.n(1_500, 300_000), 1400);
+    drive_random_with(ctx, &SUBS[2], ctx.n(1_500, 300_000), 1400, 250);
     drive_enum(ctx, &SUBS[3], (SHAPE_BASES.len() * SHAPE_OFFS * SHAPE_KINDS) as u64);
-    drive_random(ctx, &SUBS[4], ctx.n(800, 200_000), 200);
+    drive_random_with(ctx, &SUBS[4], ctx.n(800, 200_000), 200, 250);
     drive_enum(ctx, &SUBS[5], (ext_numbers().len() * 3) as u64);
-    let _ = std::fs::remove_dir_all(verif_root().join("target/c20-tmp"));
+    drive_random_with(ctx, &SUBS[6], ctx.n(1_500, 300_000), 1400, 250);
+    drive_random_with(ctx, &SUBS[7], ctx.n(800, 200_000), 800, 250);
+    cleanup();
 }
 
 pub fn finish(ctx: &Ctx) -> i32 {
